@@ -230,6 +230,20 @@ func runBlocking(c *fw.Case, name string, cd codec.Codec, stream []byte, frameEn
 	}
 	cur := 0
 	nframes := 0
+	type held struct {
+		live []byte
+		at   int
+	}
+	var kept []held
+	defer func() {
+		// DecodeBlocked hands out buffers of its own (not Peek views): frames the caller still holds must stay intact
+		for i, h := range kept {
+			if !bytes.Equal(h.live, stream[h.at:h.at+len(h.live)]) {
+				fail("held-frame-changed", "frame %d returned earlier by DecodeBlocked now reads %s, was %s", i, hx(h.live), hx(stream[h.at:h.at+len(h.live)]))
+				return
+			}
+		}
+	}()
 	for k := 0; k <= len(frameEnds)+1; k++ {
 		var frame []byte
 		var err error
@@ -262,6 +276,7 @@ func runBlocking(c *fw.Case, name string, cd codec.Codec, stream []byte, frameEn
 				fail("wrong-frame", "DecodeBlocked returned %d octets %s, expected %s", len(frame), hx(frame), hx(stream[cur:cur+L]))
 				return
 			}
+			kept = append(kept, held{frame, cur})
 			cur += L
 			nframes++
 		default:
